@@ -148,12 +148,59 @@ pub fn gen_traffic(rng: &mut Rng, n: usize) -> Vec<(DltMessage, u8)> {
         if class > 0 && class != 2 {
             m.ecu = ecu_of(rng);
         }
+        v.push((m, class));
+    }
+    // complete, well-formed segmented SOME/IP transfers (announcement, all chunks in order with the announced size, end
+    // marker; class 9): the plugin reassembles and decodes them - and must not touch anything but the text
+    for _ in 0..rng.usize_below(3) {
+        let be = rng.chance(1, 4);
+        let seg_id = rng.next_u32() % 8;
+        let tag = |t: &[u8; 4]| {
+            let mut x = t.to_vec();
+            x.push(0);
+            Val::Ascii(x)
+        };
+        let nr_chunks = 1 + rng.below(4) as u16;
+        let chunk_size = 8 + rng.below(24) as u16;
+        let last_len = 1 + rng.usize_below(chunk_size as usize);
+        let mut body = vec![];
+        body.extend_from_slice(&64098u16.to_be_bytes());
+        body.extend_from_slice(&(*rng.pick(&[1000u16, 1, 0x8001])).to_be_bytes());
+        let total = (nr_chunks as usize - 1) * chunk_size as usize + last_len;
+        body.extend_from_slice(&(total as u32).to_be_bytes());
+        while body.len() < total {
+            body.push(rng.next_u8());
+        }
+        body.truncate(total);
+        let hl = *rng.pick(&[9usize, 10, 12]);
+        let hdr = rng.bytes(hl);
+        let ecu = ecu_of(rng);
+        let mk = |vals: Vec<Val>, noar: u8| {
+            let (p, _) = encode(&vals, be);
+            let mut m = mk_verbose_msg(p, noar, be);
+            m.extended_header.as_mut().unwrap().verb_mstp_mtin = 1 | (2 << 1) | (1 << 4);
+            m.extended_header.as_mut().unwrap().ctid = DltChar4::from_buf(b"TC\0\0");
+            m.ecu = ecu;
+            m
+        };
+        let mut seq = vec![mk(vec![tag(b"NWST"), Val::Raw(seg_id.to_le_bytes().to_vec()), Val::Raw(hdr), Val::U32(0), Val::Raw(nr_chunks.to_le_bytes().to_vec()), Val::Raw(chunk_size.to_le_bytes().to_vec())], 6)];
+        for c in 0..nr_chunks as usize {
+            let from = c * chunk_size as usize;
+            let to = (from + chunk_size as usize).min(total);
+            seq.push(mk(vec![tag(b"NWCH"), Val::Raw(seg_id.to_le_bytes().to_vec()), Val::Raw((c as u16).to_le_bytes().to_vec()), Val::Raw(body[from..to].to_vec())], 4));
+        }
+        seq.push(mk(vec![tag(b"NWEN"), Val::Raw(seg_id.to_le_bytes().to_vec())], 2));
+        let at = rng.usize_below(v.len() + 1);
+        for (k, m) in seq.into_iter().enumerate() {
+            v.insert(at + k, (m, 9));
+        }
+    }
+    for (i, (m, _)) in v.iter_mut().enumerate() {
         m.index = i as u32;
         m.reception_time_us = 1_600_000_000_000_000 + i as u64 * 1000;
         m.timestamp_dms = i as u32 * 10;
         m.lifecycle = 1 + (i as u32 / 50);
         m.standard_header.mcnt = i as u8;
-        v.push((m, class));
     }
     v
 }
